@@ -499,6 +499,9 @@ type BlockOp struct {
 	Snapshot  bool    `json:"snapshot,omitempty"`
 	Fork      bool    `json:"fork,omitempty"` // export->import fork after this block
 	Probe     bool    `json:"probe,omitempty"`
+	ExtraVotes []int64 `json:"extra_votes,omitempty"` // votes from addresses that are not validators
+	DupVote   bool    `json:"dup_vote,omitempty"`    // first vote entry repeated
+	TimeBack  int64   `json:"time_back,omitempty"`   // header time this many seconds before the previous block (non-monotone)
 	Queries   []int64 `json:"queries,omitempty"`
 }
 
